@@ -22,7 +22,8 @@ collection contents.
 Guards (what keeps this from being stricter than the library):
 * primary row order is compared only under a total ORDER BY (always ending in the primary
   keys of every FROM entity); LIMIT/OFFSET are generated only together with one;
-  with DISTINCT the ORDER BY uses root columns only.
+  with DISTINCT the ORDER BY uses root columns only (and the key of a joined entity only
+  when that entity is selected).
 * collection order is compared only where the relationship has a total mapper-level
   ``order_by``; set collections and un-ordered relationships compare as multisets.
 * rows are de-duplicated by the harness in *every* variant (joined eager loading of a
@@ -35,6 +36,9 @@ Guards (what keeps this from being stricter than the library):
   the same class twice (query-time expressions are by design not refreshed on an
   already-loaded instance, so their value would depend on load order).
 * ``innerjoin=True`` is used only on the NOT NULL many-to-one ``E.a``.
+* in a preloaded session no nested ``with_expression`` is generated: an instance keeps the
+  loader options of the query that first loaded it, so options of a later query reach
+  its eager loads but not its lazy loads (by design).
 
 Fires on the unchanged tree (candidate genuine defects, each with its own mechanism;
 minimal repros and proposed patches in selftest/C40/proposed_fixes):
@@ -412,8 +416,13 @@ def build_pieces(sa, orm, zoo, q):
             e = ent if o["on"] == "root" else jent
             c = getattr(e, o["col"])
             ob.append(c.desc() if o["desc"] else c)
-        # total: primary keys of every FROM entity close the ORDER BY
+        # total: primary keys of every FROM entity close the ORDER BY.  Under DISTINCT a
+        # joined entity that is not selected must stay out of the ORDER BY (which of its
+        # rows orders a distinct root row is not defined; legacy Query would even add the
+        # column to the DISTINCT list)
         for e in pc["froms"]:
+            if q["distinct"] and e is not pc["ent"] and not any(c is e for c in cols):
+                continue
             ob.append(e.id.desc() if q.get("pk_desc") else e.id)
         pc["order"] = ob
     return pc
@@ -579,7 +588,10 @@ def run(ctx):
                 recurs = tree_recurs(zoo, root, tree)
                 if not recurs and base in EXPR_ROOT and rng.random() < 0.3:
                     q["expr_root"] = True
-                if not recurs and base == "A" and "bs" in tree and rng.random() < 0.4:
+                if not recurs and base == "A" and "bs" in tree and rng.random() < 0.4 and not q["preload"]:
+                    # (not in a preloaded session: an instance keeps the loader options of
+                    # the query that first loaded it, so a later query's nested
+                    # with_expression reaches eager loads but not lazy ones - by design)
                     q["expr_nested"] = True
                 one_query(ctx, sa, orm, R, zoo, engine, spy, q, tree, rng, warnings)
         finally:
